@@ -609,7 +609,14 @@ def getitem(a, key):
     if not shape:
         return fn()
     basic = not any(isinstance(k, (Arr, IndexSet)) for k in key)
-    return Arr(tuple(shape), fn, a.dtype, a.kind, mask, origin=a.origin if basic else frozenset())
+    r = Arr(tuple(shape), fn, a.dtype, a.kind, mask, origin=a.origin if basic else frozenset())
+    if basic and a.ndim > 0 and not all(isinstance(k, slice) and k == slice(None) for k in key if k is not None):
+        # a NumPy view of part of `a`: a store through it writes into `a`
+        r.viewof = a
+        k0 = key[0] if key else None
+        if isinstance(k0, (int, Poly)) and not isinstance(k0, bool) and all(isinstance(k, slice) and k == slice(None) for k in key[1:]):
+            r.rowview_of = (a, Poly.const(k0) if isinstance(k0, int) and k0 >= 0 else (a.shape[0] + k0 if isinstance(k0, int) else k0))
+    return r
 
 
 def setitem(a, key, val):
@@ -622,8 +629,13 @@ def setitem(a, key, val):
         return Arr(a.shape, lambda *idx: T.mk_ite(C(kfn(*idx)), v, afn0(*idx)), a.dtype, a.kind, a.mask, origin=a.origin)
     if not isinstance(key, tuple):
         key = (key,)
-    if any(k is Ellipsis or k is None for k in key):
-        raise ModelError("store with ellipsis/newaxis")
+    if any(k is None for k in key):
+        raise ModelError("store with newaxis")
+    if any(k is Ellipsis for k in key):
+        if sum(1 for k in key if k is Ellipsis) > 1:
+            raise ModelError("store with two ellipses")
+        e = [k is Ellipsis for k in key].index(True)
+        key = key[:e] + (slice(None),) * (a.ndim - (len(key) - 1)) + key[e + 1:]
     key = key + (slice(None),) * (a.ndim - len(key))
     fixed = []   # (axis, index term)
     kept = []
